@@ -27,10 +27,12 @@ Step ==
      THEN /\ g' = GhostInit(ev.cfg)
           /\ UNCHANGED <<bad, cnt>>
      ELSE IF ev.op = "stress"
-     THEN LET v == (IF ~StressOK(ev) THEN {"C03_s"} ELSE {}) \cup (IF ~StressLeakOK(ev) THEN {"C02_s"} ELSE {}) \cup (IF ~StressCntOK(ev) THEN {"C04_s"} ELSE {})
+     THEN LET isRR == ev.kind \in {"rr", "rrwrap"}
+              v == IF isRR THEN (IF ~StressRROK(ev) THEN {"C09_s"} ELSE {})
+                   ELSE (IF ~StressOK(ev) THEN {"C03_s"} ELSE {}) \cup (IF ~StressLeakOK(ev) THEN {"C02_s"} ELSE {}) \cup (IF ~StressCntOK(ev) THEN {"C04_s"} ELSE {})
           IN /\ g' = g
              /\ bad' = IF v # {} /\ Len(bad) < 300 THEN Append(bad, [l |-> l, sid |-> ev.sid, i |-> ev.i, ids |-> v, tags |-> {}]) ELSE bad
-             /\ cnt' = [cnt EXCEPT !["C03_s"] = @ + 1, !["C02_s"] = @ + 1, !["C04_s"] = @ + 1]
+             /\ cnt' = IF isRR THEN [cnt EXCEPT !["C09_s"] = @ + 1] ELSE [cnt EXCEPT !["C03_s"] = @ + 1, !["C02_s"] = @ + 1, !["C04_s"] = @ + 1]
      ELSE \E g2 \in {GhostNext(g, ev)} :        \* bound once: TLC re-evaluates LET definitions at every use
           \E x \in {Exercised(g, ev, g2)} :
             LET v == {c.id : c \in {y \in x : ~y.ok}}
